@@ -1,7 +1,10 @@
 package props
 
 import (
+	"bytes"
+	"encoding/json"
 	"fmt"
+	"net/http"
 	"os"
 	"os/exec"
 	"path/filepath"
@@ -15,6 +18,7 @@ import (
 	"verifharness/client"
 	"verifharness/core"
 	"verifharness/ctl"
+	"verifharness/inproc"
 	"verifharness/lnmodel"
 	"verifharness/menv"
 	"verifharness/refcrypto"
@@ -157,6 +161,22 @@ func c01Stress(r *core.Run) {
 			}
 		}
 		env.Hub.SetController(&delayCtl{seed: uint64(r.Seed)*7919 + uint64(h)})
+		// every odd history goes through the real HTTP router (JSON decoding, error mapping, the
+		// NUT-19 response cache) instead of the typed API, so that the server layer is part of
+		// what the linearizability check and the race detector see
+		viaHTTP := h%2 == 1
+		var handler http.Handler
+		if viaHTTP {
+			handler = env.Handler()
+		}
+		post := func(path string, body any) (int, []byte, bool) {
+			b, _ := json.Marshal(body)
+			req, _ := http.NewRequest("POST", "http://mint"+path, bytes.NewReader(b))
+			req.Header.Set("Content-Type", "application/json")
+			st, _, rb, p, hang := inproc.Serve(handler, req, 60*time.Second)
+			return st, rb, p != "" || hang
+		}
+		var died int32
 		var hist []porcupine.Operation
 		var hmu sync.Mutex
 		var wg sync.WaitGroup
@@ -168,14 +188,45 @@ func c01Stress(r *core.Run) {
 					in := stressIn{Key: p.key, Op: p.op}
 					call := stressNow()
 					var out stressOut
-					switch p.op {
-					case "swap":
+					switch {
+					case viaHTTP && p.op == "swap":
+						st, rb, d := post("/v1/swap", map[string]any{"inputs": cashu.Proofs{coins[p.key]}, "outputs": client.BMs(p.outs)})
+						var resp struct {
+							Signatures cashu.BlindedSignatures `json:"signatures"`
+						}
+						out.OK = st == 200 && json.Unmarshal(rb, &resp) == nil && len(resp.Signatures) == len(p.outs)
+						if d {
+							atomic.AddInt32(&died, 1)
+						}
+					case viaHTTP && p.op == "melt":
+						st, rb, d := post("/v1/melt/bolt11", map[string]any{"quote": p.quote, "inputs": cashu.Proofs{coins[p.key]}})
+						var resp struct {
+							State string `json:"state"`
+						}
+						out.OK = st == 200 && json.Unmarshal(rb, &resp) == nil && resp.State == "PAID"
+						if d {
+							atomic.AddInt32(&died, 1)
+						}
+					case viaHTTP && p.op == "check":
+						st, rb, d := post("/v1/checkstate", map[string]any{"Ys": []string{refcrypto.YHex(coins[p.key].Secret)}})
+						var resp struct {
+							States []struct {
+								State string `json:"state"`
+							} `json:"states"`
+						}
+						if st == 200 && json.Unmarshal(rb, &resp) == nil && len(resp.States) == 1 {
+							out.State = resp.States[0].State
+						}
+						if d {
+							atomic.AddInt32(&died, 1)
+						}
+					case p.op == "swap":
 						_, err := env.Swap(cashu.Proofs{coins[p.key]}, client.BMs(p.outs))
 						out.OK = err == nil
-					case "melt":
+					case p.op == "melt":
 						q, err := env.Melt(p.quote, cashu.Proofs{coins[p.key]})
 						out.OK = err == nil && q.State.String() == "PAID"
-					case "check":
+					case p.op == "check":
 						st, err := env.CheckState([]string{refcrypto.YHex(coins[p.key].Secret)})
 						if err == nil && len(st) == 1 {
 							out.State = st[0].State.String()
@@ -197,9 +248,15 @@ func c01Stress(r *core.Run) {
 			return
 		}
 		env.Hub.SetController(nil)
+		if died > 0 {
+			r.Violate("stress:http-handler-died", fmt.Sprintf("%d requests of a free-running history over the HTTP router ended in a panic or hung", died), sig, nil)
+		}
 		res, info := porcupine.CheckOperationsVerbose(c01Model, hist, 60*time.Second)
 		r.Eval(sig, true)
 		r.Count("stress_operations", int64(len(hist)))
+		if viaHTTP {
+			r.Count("stress_histories_over_http", 1)
+		}
 		r.Count("porcupine_partitions", int64(ncoins))
 		switch res {
 		case porcupine.Illegal:
@@ -325,6 +382,29 @@ func c03Stress(r *core.Run) {
 			}
 		}
 		env.Hub.SetController(&delayCtl{seed: uint64(r.Seed)*104729 + uint64(h)})
+		viaHTTP := h%2 == 1 // through the router and its response cache, see c01Stress
+		var handler http.Handler
+		if viaHTTP {
+			handler = env.Handler()
+			r.Count("stress_histories_over_http", 1)
+		}
+		var died int32
+		httpCall := func(method, path string, body any) (int, []byte) {
+			var rd *bytes.Reader
+			if body != nil {
+				b, _ := json.Marshal(body)
+				rd = bytes.NewReader(b)
+			} else {
+				rd = bytes.NewReader(nil)
+			}
+			req, _ := http.NewRequest(method, "http://mint"+path, rd)
+			req.Header.Set("Content-Type", "application/json")
+			st, _, rb, p, hang := inproc.Serve(handler, req, 60*time.Second)
+			if p != "" || hang {
+				atomic.AddInt32(&died, 1)
+			}
+			return st, rb
+		}
 		var hist []porcupine.Operation
 		var hmu sync.Mutex
 		var wg sync.WaitGroup
@@ -342,15 +422,33 @@ func c03Stress(r *core.Run) {
 						world.PayInvoice(quotes[p.key].hash)
 						out.OK = true
 					case "mint":
-						_, err := env.MintTokens(quotes[p.key].id, client.BMs(p.outs), "")
-						out.OK = err == nil
-						if err == nil {
+						if viaHTTP {
+							st, rb := httpCall("POST", "/v1/mint/bolt11", map[string]any{"quote": quotes[p.key].id, "outputs": client.BMs(p.outs)})
+							var resp struct {
+								Signatures cashu.BlindedSignatures `json:"signatures"`
+							}
+							out.OK = st == 200 && json.Unmarshal(rb, &resp) == nil && len(resp.Signatures) == len(p.outs)
+						} else {
+							_, err := env.MintTokens(quotes[p.key].id, client.BMs(p.outs), "")
+							out.OK = err == nil
+						}
+						if out.OK {
 							atomic.AddInt32(&issued[p.key], 1)
 						}
 					case "poll":
-						q, err := env.MintQuoteState(quotes[p.key].id)
-						if err == nil {
-							out.State = q.State.String()
+						if viaHTTP {
+							st, rb := httpCall("GET", "/v1/mint/quote/bolt11/"+quotes[p.key].id, nil)
+							var resp struct {
+								State string `json:"state"`
+							}
+							if st == 200 && json.Unmarshal(rb, &resp) == nil {
+								out.State = resp.State
+							}
+						} else {
+							q, err := env.MintQuoteState(quotes[p.key].id)
+							if err == nil {
+								out.State = q.State.String()
+							}
 						}
 					}
 					ret := stressNow()
@@ -371,6 +469,9 @@ func c03Stress(r *core.Run) {
 		// let late notifications land, then try once more per quote
 		time.Sleep(5 * time.Millisecond)
 		env.Hub.SetController(nil)
+		if died > 0 {
+			r.Violate("stress:http-handler-died", fmt.Sprintf("%d requests of a free-running history over the HTTP router ended in a panic or hung", died), sig, nil)
+		}
 		for i, q := range quotes {
 			outs := client.Outputs(rng, act.Id, client.Split(21))
 			if _, err := env.MintTokens(q.id, client.BMs(outs), ""); err == nil {
